@@ -9,18 +9,20 @@ CONSTANTS Depth, RootKinds
 A == Leaf("a")  Bv == Leaf("b")  Cv == Leaf("c")
 Leaves == {A, Bv, Cv}
 Reps == {Bin("||", A, Bv), Bin("&&", A, Bv), Bin("==", A, Bv), Bin("+", A, Bv), Bin("*", A, Bv), Bin("in", A, Cv), Un("-", A), Un("!", A), Un("^", A), Un("&", A), Un("*", A),
-         Tern(A, Bv, Cv), Nilco(A, Bv), Idx(Cv, A), Member(A, "m"), CallE(A, Bv), Slice(Cv, A, Bv), Slice3(Cv, A, Bv, A)}
+         Tern(A, Bv, Cv), Nilco(A, Bv), Idx(Cv, A), Member(A, "m"), CallE(A, Bv), Slice(Cv, A, Bv), Slice3(Cv, A, Bv, A), Call0(A), EList}
 Kids == Leaves \cup Reps
-Over(K) ==   {Bin(op, l, r) : op \in BinOps, l \in K, r \in K}
+\* ([] directly followed by [ or { is the beginning of a typed literal in this language: the empty list is never the base of a postfix form)
+Over(K0) == LET K == K0 IN LET KB == K0 \ {EList} IN   {Bin(op, l, r) : op \in BinOps, l \in K, r \in K}
         \cup {Un(op, e) : op \in UnOps, e \in K}
         \cup {Tern(c, x, y) : c \in K, x \in K, y \in K}
         \cup {Nilco(l, r) : l \in K, r \in K}
-        \cup {Idx(e, i) : e \in K, i \in K}
-        \cup {Member(e, "m") : e \in K}
-        \cup {CallE(e, x) : e \in K, x \in K}
-        \cup {Slice(e, lo, hi) : e \in K, lo \in {A} \cup Reps, hi \in {Bv}}
-        \cup {Slice3(e, A, Bv, c) : e \in K, c \in {Cv} \cup Reps} \cup {Slice3(e, lo, hi, Cv) : e \in {Cv, Member(A, "m"), Idx(Cv, A)}, lo \in Reps, hi \in Reps}
-        \cup {SliceLo(e, lo) : e \in K, lo \in K} \cup {SliceHi(e, hi) : e \in K, hi \in K}
+        \cup {Idx(e, i) : e \in KB, i \in K}
+        \cup {Member(e, "m") : e \in KB}
+        \cup {CallE(e, x) : e \in KB, x \in K}
+        \cup {Slice(e, lo, hi) : e \in KB, lo \in {A} \cup Reps, hi \in {Bv}}
+        \cup {Slice3(e, A, Bv, c) : e \in KB, c \in {Cv} \cup Reps} \cup {Slice3(e, lo, hi, Cv) : e \in {Cv, Member(A, "m"), Idx(Cv, A)}, lo \in Reps, hi \in Reps}
+        \cup {Call0(e) : e \in KB} \cup {CallE(Call0(A), x) : x \in K} \cup {Bin("+", EList, x) : x \in K} \cup {Idx(e, Call0(A)) : e \in KB}
+        \cup {SliceLo(e, lo) : e \in KB, lo \in K} \cup {SliceHi(e, hi) : e \in KB, hi \in K}
 \* every binary operator under / over every binary and unary operator (precedence and associativity pairwise)
 Pairs ==   {Bin(o1, Bin(o2, A, Bv), Cv) : o1 \in BinOps, o2 \in BinOps} \cup {Bin(o1, A, Bin(o2, Bv, Cv)) : o1 \in BinOps, o2 \in BinOps}
       \cup {Un(u, Bin(o, A, Bv)) : u \in UnOps, o \in BinOps} \cup {Bin(o, Un(u, A), Bv) : u \in UnOps, o \in BinOps} \cup {Bin(o, A, Un(u, Bv)) : u \in UnOps, o \in BinOps}
